@@ -4,8 +4,10 @@ from typing import List
 import adapters
 import np_lite
 
+import os
 cd = adapters.load_model_cd()
 M = adapters.ModelNP
+MAXN, MAXB, MAXK = [int(x) for x in os.environ.get('C03_BOUNDS', '6,4,3').split(',')]
 
 
 def make_dataset(cdm, A, vals, pp):
@@ -133,9 +135,9 @@ def check_final_size(cdm, n, batch_size, buckets):
 # ---- contracts ------------------------------------------------------------------------------------------
 def padded(vals: List[int], batch_size: int, buckets: int, pp: int) -> bool:
   """
-  pre: len(vals) <= 6
-  pre: 1 <= batch_size <= 4
-  pre: 1 <= buckets <= 3
+  pre: len(vals) <= MAXN
+  pre: 1 <= batch_size <= MAXB
+  pre: 1 <= buckets <= MAXK
   pre: 0 <= pp <= 2
   post: __return__
   """
@@ -144,9 +146,9 @@ def padded(vals: List[int], batch_size: int, buckets: int, pp: int) -> bool:
 
 def padded_reach(vals: List[int], batch_size: int, buckets: int, pp: int) -> bool:
   """
-  pre: len(vals) <= 6
-  pre: 1 <= batch_size <= 4
-  pre: 1 <= buckets <= 3
+  pre: len(vals) <= MAXN
+  pre: 1 <= batch_size <= MAXB
+  pre: 1 <= buckets <= MAXK
   pre: 0 <= pp <= 2
   post: not __return__
   """
@@ -155,8 +157,8 @@ def padded_reach(vals: List[int], batch_size: int, buckets: int, pp: int) -> boo
 
 def plain(vals: List[int], batch_size: int, drop: bool, pp: int) -> bool:
   """
-  pre: len(vals) <= 6
-  pre: 1 <= batch_size <= 4
+  pre: len(vals) <= MAXN
+  pre: 1 <= batch_size <= MAXB
   pre: 0 <= pp <= 2
   post: __return__
   """
